@@ -86,7 +86,7 @@ def run(ctx):
                     ctx.call_sites += 1
                     judge(f, PM.cc_next.id, e[0])
     # ... and from the entry of next() to the call that reads the request
-    pre = absint.explore(f, 0, None, stop=lambda bb, t, st: "read" if t["t"] == "call" and call_name(t) == PM.read_def else None)
+    pre = absint.explore(f, 0, None, stop=lambda bb, t, st: "read" if PM.is_read_entry(t) else None)
     for p in pre:
         if p.end[0] == "stop":
             for e in p.events:
